@@ -66,6 +66,9 @@ pub struct Script {
     /// streaming requests: 0 = read everything first, 1 = answer without reading,
     /// 2 = interleave (read one request message between two response messages)
     pub read_mode: u8,
+    /// streaming responses that end in OK: trailing metadata, attached by ending the stream with
+    /// `Err(Status::with_metadata(Code::Ok, ..))`
+    pub ok_trailing_md: Vec<MdEntry>,
     /// engine N only: virtual-time latency before the handler answers (u64::MAX = never answers)
     pub latency_us: u64,
     /// engine N only: virtual-time gap before each streamed response message
@@ -121,7 +124,7 @@ impl Handler {
         };
         st.entered.push(id);
         self.notify.notify_waiters();
-        self.sim.ev(|| format!("handler: enter {method} call {id}"));
+        self.sim.ev(|| format!("handler: enter {method} call {id} (read_mode {:?})", st.scripts.get(&id).map(|s| s.read_mode)));
         st.logs.insert(id, CallLog { method, md: Some(md.clone()), ..Default::default() });
         match st.scripts.get(&id) {
             Some(s) => Ok((id, s.clone())),
@@ -146,11 +149,13 @@ impl Handler {
     }
 
     fn note_msg(&self, id: u64, m: Vec<u8>) {
+        self.sim.ev(|| format!("handler: call {id} request message {}B", m.len()));
         if let Some(l) = self.st.lock().unwrap().logs.get_mut(&id) {
             l.msgs.push(m);
         }
     }
     fn note_req_end(&self, id: u64, err: Option<String>) {
+        self.sim.ev(|| format!("handler: call {id} request stream ended: {:?}", err));
         if let Some(l) = self.st.lock().unwrap().logs.get_mut(&id) {
             l.req_stream_ended = err.is_none();
             l.req_error = err;
@@ -170,6 +175,10 @@ impl Handler {
         let mut v: Vec<Result<M, Status>> = s.msgs.iter().map(|b| Ok(M::from_payload(s.tag, b))).collect();
         if let Some(e) = &s.end {
             v.push(Err(e.build()));
+        } else if !s.ok_trailing_md.is_empty() {
+            let mut md = MetadataMap::new();
+            apply_md(&mut md, &s.ok_trailing_md);
+            v.push(Err(Status::with_metadata(tonic::Code::Ok, "", md)));
         }
         v
     }
@@ -310,6 +319,10 @@ impl<M: SimMsg> Stream for OutStream<M> {
             }
         }
         let t = if this.tail_done { Poll::Ready(None) } else { Pin::new(&mut this.tail).poll_next(cx) };
+        {
+            let (id, td, alt, hasreq) = (this.id, this.tail_done, this.alternate, this.req.is_some());
+            this.h.sim.ev(|| format!("handler: call {id} response stream polled (tail_done={td} alternate={alt} request_stream_held={hasreq}) -> tail {}", match &t { Poll::Ready(Some(_)) => "item", Poll::Ready(None) => "end", Poll::Pending => "pending" }));
+        }
         match t {
             Poll::Ready(Some(x)) => {
                 if this.gap_us > 0 {
